@@ -41,7 +41,8 @@ def specs(tier):
              options=['bypass_jira_check'],
              cfg={'peers': 1, 'need_author': False},
              approvers=[PEER1], change_requesters=['carol'],
-             statuses_int=['SUCCESSFUL', 'FAILED'], decline=True),
+             statuses_int=['SUCCESSFUL', 'FAILED'], decline=True,
+             eval_int_commits=True),
     ]
     if tier == 'thorough':
         out += [
